@@ -341,16 +341,25 @@ func (r *Runner) Exec(line string) (lhs string, res string) {
 		}
 		return lhs, "ok"
 	case "pkgcheck":
+		if sd.log != nil {
+			return lhs, "bad-op open"
+		}
 		if err := klevdb.Check(sd.dir, parseOpts(args)); err != nil {
 			return lhs, errRes(err)
 		}
 		return lhs, "ok"
 	case "pkgrecover":
+		if sd.log != nil {
+			return lhs, "bad-op open"
+		}
 		if err := klevdb.Recover(sd.dir, parseOpts(args)); err != nil {
 			return lhs, errRes(err)
 		}
 		return lhs, "ok"
 	case "segcheckall":
+		if sd.log != nil {
+			return lhs, "bad-op open"
+		}
 		o := parseOpts(args)
 		segs, err := segment.Find(sd.dir, false)
 		if err != nil {
